@@ -480,6 +480,45 @@ package keeper
 //@   ensures rejected: err != nil ==> contexts == old(contexts)
 //@ end
 
+// The message handlers of the four request-context controls: whatever the keeper method checks itself, a handler
+// only acts for the signer who is the recorded consumer of a context no module owns (C08).
+//@ func msgServer.PauseRequestContext(goCtx, msg)
+//@   property C08
+//@   returns resp, err
+//@   let id = unhex(msg.RequestContextId)
+//@   modifies contexts
+//@   ensures signer_is_consumer: err == nil ==> old(has(contexts, id)) && msg.Consumer == old(CTX(id)).Consumer && len(old(CTX(id)).ModuleName) == 0
+//@   ensures rejected: err != nil ==> contexts == old(contexts)
+//@ end
+//@ func msgServer.KillRequestContext(goCtx, msg)
+//@   property C08
+//@   returns resp, err
+//@   let id = unhex(msg.RequestContextId)
+//@   modifies contexts
+//@   ensures signer_is_consumer: err == nil ==> old(has(contexts, id)) && msg.Consumer == old(CTX(id)).Consumer && len(old(CTX(id)).ModuleName) == 0
+//@   ensures rejected: err != nil ==> contexts == old(contexts)
+//@ end
+//@ func msgServer.StartRequestContext(goCtx, msg)
+//@   property C08
+//@   returns resp, err
+//@   requires height >= 0
+//@   let id = unhex(msg.RequestContextId)
+//@   modifies contexts, newBatch, newBatchH
+//@   ensures signer_is_consumer: err == nil ==> old(has(contexts, id)) && msg.Consumer == old(CTX(id)).Consumer && len(old(CTX(id)).ModuleName) == 0
+//@   ensures rejected: err != nil ==> contexts == old(contexts) && newBatch == old(newBatch) && newBatchH == old(newBatchH)
+//@ end
+//@ func msgServer.UpdateRequestContext(goCtx, msg)
+//@   property C08
+//@   returns resp, err
+//@   let id = unhex(msg.RequestContextId)
+//@   requires has(prm)
+//@   requires has(contexts, id) ==> scheduleOK(CTX(id))
+//@   modifies contexts
+//@   invariant #1 idx: rangeindex >= 0 - 1 && rangeindex < len(msg.Providers)
+//@   invariant #1 frame: contexts == old(contexts)
+//@   ensures signer_is_consumer: err == nil ==> old(has(contexts, id)) && msg.Consumer == old(CTX(id)).Consumer && len(old(CTX(id)).ModuleName) == 0
+//@ end
+
 // RefundDeposit: only the owner of an unavailable binding, after the waiting period; pays exactly the recorded deposit
 // from the deposit escrow and records zero.
 //@ func Keeper.RefundDeposit(ctx, serviceName, provider, owner)
